@@ -7,7 +7,7 @@ text around those tokens; float()/int() of a token gives back the number it stan
 Any other number formatting (precision/width/type specs, round, casts) is reported as lossy.
 """
 from .poly import Poly
-from .interp import Arr, Pose, Obj, sym_pose, sym_vec, PathRaise, PI
+from .interp import ga, sa, Arr, Pose, Obj, sym_pose, sym_vec, PathRaise, PI
 from .algebra import ObFail, CDIM
 from .assembly import sym_symmetric
 
@@ -76,31 +76,31 @@ def same_ids(it, a, b, what):
 def same_vertex(it, a, b, what):
     if not isinstance(a, Obj) or a.cls != b.cls:
         raise ObFail("%s: read back as %r" % (what, a))
-    if not eq_poly(it, a.fields.get("id"), b.fields.get("id")):
+    if not eq_poly(it, ga(a, "id", None), ga(b, "id", None)):
         raise ObFail("%s: id differs" % what)
-    same_pose(it, a.fields.get("pose"), b.fields.get("pose"), what + ": pose")
+    same_pose(it, ga(a, "pose", None), ga(b, "pose", None), what + ": pose")
 
 
 def same_edge(it, a, b, what):
     if not isinstance(a, Obj) or a.cls != b.cls:
         raise ObFail("%s: read back as %r" % (what, a))
-    same_ids(it, a.fields.get("vertex_ids"), b.fields.get("vertex_ids"), what + ": vertex_ids")
-    same_matrix(it, a.fields.get("information"), b.fields.get("information"), what + ": information")
-    same_pose(it, a.fields.get("estimate"), b.fields.get("estimate"), what + ": estimate", allow_neg_quat=True)
+    same_ids(it, ga(a, "vertex_ids", None), ga(b, "vertex_ids", None), what + ": vertex_ids")
+    same_matrix(it, ga(a, "information", None), ga(b, "information", None), what + ": information")
+    same_pose(it, ga(a, "estimate", None), ga(b, "estimate", None), what + ": estimate", allow_neg_quat=True)
     if a.cls == "EdgeLandmark":
-        same_pose(it, a.fields.get("offset"), b.fields.get("offset"), what + ": offset", allow_neg_quat=True)
-        if b.fields.get("offset") is not None and b.fields["offset"].cls == "PoseSE3":
-            if not eq_poly(it, a.fields.get("offset_id"), b.fields.get("offset_id")):
+        same_pose(it, ga(a, "offset", None), ga(b, "offset", None), what + ": offset", allow_neg_quat=True)
+        if ga(b, "offset", None) is not None and ga(b, "offset").cls == "PoseSE3":
+            if not eq_poly(it, ga(a, "offset_id", None), ga(b, "offset_id", None)):
                 raise ObFail("%s: offset_id differs" % what)
 
 
 def same_param(it, a, b, what):
     if not isinstance(a, Obj) or a.cls != b.cls:
         raise ObFail("%s: read back as %r" % (what, a))
-    ka, kb = a.fields.get("key"), b.fields.get("key")
+    ka, kb = ga(a, "key", None), ga(b, "key", None)
     if not (isinstance(ka, tuple) and isinstance(kb, tuple) and len(ka) == 2 == len(kb) and ka[0] == kb[0] and eq_poly(it, ka[1], kb[1])):
         raise ObFail("%s: key differs (%r vs %r)" % (what, ka, kb))
-    same_pose(it, a.fields.get("value"), b.fields.get("value"), what + ": value")
+    same_pose(it, ga(a, "value", None), ga(b, "value", None), what + ": value")
 
 
 # ------------------------------------------------------------------------------------------------ builders
@@ -112,13 +112,13 @@ def build_vertex(it, cls, name, vid=None):
 
 def build_odometry(it, cls, name, v1, v2):
     n = CDIM[cls]
-    return it.construct("EdgeOdometry", [[v1.fields["id"], v2.fields["id"]], sym_symmetric("W_" + name, n), sym_pose(cls, "z_" + name, unit=True), [v1, v2]])
+    return it.construct("EdgeOdometry", [[ga(v1, "id"), ga(v2, "id")], sym_symmetric("W_" + name, n), sym_pose(cls, "z_" + name, unit=True), [v1, v2]])
 
 
 def build_landmark(it, pcls, name, v1, v2, offset, offset_id):
     lcls = {"PoseSE2": "PoseR2", "PoseSE3": "PoseR3", "PoseR2": "PoseR2", "PoseR3": "PoseR3"}[pcls]
     n = CDIM[lcls]
-    return it.construct("EdgeLandmark", [[v1.fields["id"], v2.fields["id"]], sym_symmetric("W_" + name, n), sym_pose(lcls, "z_" + name),
+    return it.construct("EdgeLandmark", [[ga(v1, "id"), ga(v2, "id")], sym_symmetric("W_" + name, n), sym_pose(lcls, "z_" + name),
                                           offset], dict(offset_id=offset_id, vertices=[v1, v2]))
 
 
